@@ -211,7 +211,7 @@ def reuse_scheme_cases(dss, configs, schemes, rng, flags=(1,), every=None, env="
     return out
 
 
-def reuse_other_cases(dss, configs, schemes, rng, flags=(1,), every=None, env="nocplex"):
+def reuse_other_cases(dss, configs, schemes, rng, flags=(1,), every=None, env="nocplex", reverse=False):
     """the SAME algorithm object first serves another (dataset, scheme) whose score is read, then the measured run"""
     out = []
     for ci, cfg in enumerate(configs):
@@ -221,12 +221,15 @@ def reuse_other_cases(dss, configs, schemes, rng, flags=(1,), every=None, env="n
             if k % stride:
                 continue
             D0 = dss[(k * 7 + 3) % len(dss)]
+            if reverse and k % 3:
+                D0 = [list(reversed(r)) for r in D]          # same universe, opposite opinions
             for f in flags:
                 if cfg == "ExactCplex(opt)" and f == 0:
                     continue
                 out.append({"D": D, "naming": ["ints", "letters"][k % 2], "sch": list(schemes[(k + ci) % len(schemes)]),
                             "cfg": cfg, "flag": f, "env": e, "kseed": k,
-                            "reuse": {"kind": "other", "D0": D0, "sch0": list(schemes[(k + ci + 1) % len(schemes)])}})
+                            "reuse": {"kind": "other", "D0": D0,
+                                      "sch0": list(schemes[(k + ci + (k % 2)) % len(schemes)])}})
     return out
 
 
@@ -302,3 +305,36 @@ def cycle_plus_sparse(rng):
     for _ in range(rng.randint(2, 3)):
         D.append([[e] for e in fixed] if rng.random() < .5 else [sorted(fixed)])
     return D
+
+
+def majority_datasets():
+    """[p, p, q], [p, q, q] and [p, p, q, r] for all orders p, q, r of three elements (ties included): one ranking is
+    strictly better than another one; with the 'weird' naming some of these rankings PRINT alike"""
+    orders = grids.orders(3)
+    out = []
+    for p in orders:
+        for q in orders:
+            if p != q:
+                out.append([p, p, q])
+                out.append([p, q, q])
+    return out
+
+
+def tied_heavy_dataset(rng, with_empty=True):
+    """3-4 elements, 3-4 rankings of at most two (large) buckets each missing at most one element, plus an empty
+    ranking: the all-tied ranking is often the best candidate"""
+    n = rng.randint(3, 4)
+    D = []
+    for _ in range(rng.randint(3, 4)):
+        elems = list(range(1, n + 1))
+        if rng.random() < .7:
+            elems.remove(rng.choice(elems))
+        rng.shuffle(elems)
+        cut = rng.randint(1, len(elems))
+        r = [sorted(elems[:cut])] + ([sorted(elems[cut:])] if elems[cut:] else [])
+        D.append(r)
+    if with_empty:
+        D.insert(rng.randrange(len(D) + 1), [])
+    U = grids.universe(D)
+    ren = {e: k + 1 for k, e in enumerate(U)}
+    return [[sorted(ren[e] for e in b) for b in r] for r in D]
